@@ -377,6 +377,7 @@ func checkC03(c *vh.Ctx) {
 		b = batches[len(batches)-1]
 		c.Sample(map[string]interface{}{"lines": len(b.lines), "concurrent": b.conc, "GOMAXPROCS": b.procs, "files_compared": len(b.out.Files), "wall_ms": b.out.Wall.Milliseconds(), "first_line": b.lines[0].Text()})
 	}
+	aliasColumnStage(c) // header-name readers on files with two spellings of one quantity (c03_readers.go)
 	c.Res.Extra["distinct_lines"] = len(okLines)
 	c.Res.Extra["observed_only"] = "data-race freedom under the Go memory model and the scheduler's real interleavings are observed (race detector, GOMAXPROCS, scheduling pressure), not proved"
 }
